@@ -284,7 +284,23 @@ def explore_opseqs(ctx, real):
                 if op[1] in od and not res.startswith('ok '):
                     want = 'ok <node>'
             elif name == 'has_attribute_type':
+                # the documented table: str/int/float/bool/None <-> a ScalarNode of that kind, list <->
+                # SequenceNode, dict <-> MappingNode; False when the attribute is absent.  (A collection
+                # carrying a scalar tag is left to the model comparison.)
                 want = None
+                if op[1] not in od:
+                    want = 'ok false'
+                else:
+                    vn = [v for k, v in w.yaml_node.value if k.value == op[1]]
+                    if len(vn) == 1:
+                        vn = vn[0]
+                        if op[2] == 'list':
+                            want = 'ok ' + str(isinstance(vn, yaml.SequenceNode)).lower()
+                        elif op[2] == 'dict':
+                            want = 'ok ' + str(isinstance(vn, yaml.MappingNode)).lower()
+                        elif isinstance(vn, yaml.ScalarNode):
+                            from yatiml.util import scalar_type_to_tag as _t
+                            want = 'ok ' + str(vn.tag == _t[dict(TYPS)[op[2]]]).lower()
             else:
                 want = 'ok' if name in ('set_attribute', 'remove_attribute', 'rename_attribute') else None
             got = apply_real(real, w, op)
